@@ -717,8 +717,9 @@ func c16Export(w *World, r *Report) {
 }
 
 var genPairing = map[string]string{"lua": "NewLuaWspGenerator", "rust": "NewRustGenerator", "go": "NewGoGenerator", "java": "NewJavaGenerator", "python": "NewPythonGenerator", "cpp": "NewCppGenerator"}
-var flagPairing = map[string]string{"lua": "luaOutput", "rust": "rsOutput", "go": "goOutput", "java": "javaOutput", "python": "pyOutput", "cpp": "cppOutput"}
-var flagNames = map[string]string{"lua_output": "luaOutput", "rs_output": "rsOutput", "go_output": "goOutput", "java_output": "javaOutput", "py_output": "pyOutput", "cpp_output": "cppOutput"}
+
+// the CLI contract (README): which flag selects which target
+var flagKeyNames = map[string]string{"lua": "lua_output", "rust": "rs_output", "go": "go_output", "java": "java_output", "python": "py_output", "cpp": "cpp_output"}
 
 func c16Compile(w *World, r *Report) {
 	const rule = "C16/compile"
@@ -727,151 +728,87 @@ func c16Compile(w *World, r *Report) {
 		r.fatal("anchor unresolved: cmd.Compile")
 		return
 	}
-	// (a) generator table: outputs[key] paired with the right constructor; closure returns Generate's results unmodified
-	type entry struct {
-		key  string
-		ctor string
-		pos  string
-	}
-	entries := map[string]*entry{} // by array element identity
-	forEachInstr(compile, func(b *ssa.BasicBlock, ins ssa.Instruction) {
-		st, ok := ins.(*ssa.Store)
-		if !ok {
-			return
-		}
-		fa, ok := st.Addr.(*ssa.FieldAddr)
-		if !ok {
-			return
-		}
-		elem := fa.X.String() + "@" + fa.X.Name()
-		if ia, ok := fa.X.(*ssa.IndexAddr); ok {
-			elem = ia.X.Name() + "[" + ia.Index.String() + "]"
-		}
-		e := entries[elem]
-		if e == nil {
-			e = &entry{pos: w.instrPos(ins)}
-			entries[elem] = e
-		}
-		switch v := st.Val.(type) {
-		case *ssa.Lookup:
-			if k, ok := constString(v.Index); ok {
-				if p, ok := v.X.(*ssa.Parameter); ok && p.Name() == "outputs" {
-					e.key = k
-				}
-			}
-		case *ssa.MakeClosure:
-			cl := v.Fn.(*ssa.Function)
-			for _, g := range generators {
-				if len(callsTo(cl, parserPath+"."+g.Ctor)) > 0 {
-					if e.ctor != "" {
-						e.ctor += "+"
-					}
-					e.ctor += g.Ctor
-				}
-			}
-			// closure returns Generate's results unmodified
-			okRet := true
-			forEachInstr(cl, func(b *ssa.BasicBlock, ins ssa.Instruction) {
-				ret, ok := ins.(*ssa.Return)
-				if !ok {
-					return
-				}
-				for i, res := range ret.Results {
-					ex, ok := stripIdentity(res).(*ssa.Extract)
-					if !ok || ex.Index != i {
-						okRet = false
-						continue
-					}
-					c, ok := ex.Tuple.(*ssa.Call)
-					if !ok || !(c.Call.IsInvoke() && c.Call.Method.Name() == "Generate" || c.Call.StaticCallee() != nil && c.Call.StaticCallee().Name() == "Generate") {
-						okRet = false
-					}
-				}
-			})
-			if !okRet {
-				r.fail(rule, "closure returns Generate's results unmodified: "+fnKey(cl), w.pos(cl.Pos()), "the generator closure post-processes or replaces the generator's file map")
-			} else {
-				r.pass(rule, "closure returns Generate's results unmodified: "+fnKey(cl), w.pos(cl.Pos()), "")
-			}
-		}
-	})
-	seenKeys := map[string]int{}
-	for _, k := range sortedKeys(entries) {
-		e := entries[k]
-		if e.key == "" && e.ctor == "" {
+	// (a)+(b) every WriteCodeToFile reached from Compile (through cmd helpers) writes, below outputs[k], exactly the file map that
+	// the generator paired with k returned - whatever table, closure or helper carries the pairing - and only after that
+	// generator's error was found nil.
+	d := newDriver(w)
+	got := map[string]map[string]bool{} // key -> constructors whose files land there
+	nWrites := 0
+	for _, c := range d.inlinedCalls() {
+		if !calleeIs(c.call, parserPath+".WriteCodeToFile") {
 			continue
 		}
-		seenKeys[e.key]++
-		want := genPairing[e.key]
-		if want == "" || e.ctor != want {
-			r.fail(rule, fmt.Sprintf("table entry outputs[%q] runs %s", e.key, want), e.pos, fmt.Sprintf("entry pairs outputs[%q] with constructor %q", e.key, e.ctor))
-		} else {
-			r.pass(rule, fmt.Sprintf("table entry outputs[%q] runs %s", e.key, want), e.pos, "")
-		}
-	}
-	for k := range genPairing {
-		if seenKeys[k] != 1 {
-			r.fail(rule, fmt.Sprintf("table entry outputs[%q] runs %s", k, genPairing[k]), w.pos(compile.Pos()), fmt.Sprintf("expected exactly one generator table entry reading outputs[%q], found %d", k, seenKeys[k]))
-		}
-	}
-	// (b) WriteCodeToFile call: directory = entry's path, map = gen() result, dominated by err == nil
-	wcalls := callsTo(compile, parserPath+".WriteCodeToFile")
-	if len(wcalls) == 0 {
-		r.fail(rule, "WriteCodeToFile(path, gen())", w.pos(compile.Pos()), "cmd.Compile never calls WriteCodeToFile")
-	}
-	for i, wc := range wcalls {
-		cc := wc.Common()
-		key := fmt.Sprintf("WriteCodeToFile#%d(path, gen())", i+1)
-		ex, ok := stripIdentity(cc.Args[1]).(*ssa.Extract)
-		if !ok || ex.Index != 0 {
-			r.fail(rule, key, w.instrPos(wc), "the map written is not result 0 of the generator call, unmodified")
-			continue
-		}
-		gcall, ok := ex.Tuple.(*ssa.Call)
-		if !ok || gcall.Call.StaticCallee() != nil || gcall.Call.IsInvoke() {
-			// dynamic call of the table's gen func expected
-			if !ok {
-				r.fail(rule, key, w.instrPos(wc), "the map written does not come from the table's gen() call")
+		nWrites++
+		args := c.call.Common().Args
+		rows := d.evalOverTable([]ssa.Value{args[0], args[1]}, c.env)
+		for _, label := range sortedKeys(rows) {
+			dir, mp := rows[label][0], rows[label][1]
+			if dir.Kind != "outkey" || mp.Kind != "genmap" {
+				what := "WriteCodeToFile operands resolve to (outputs[k], files of a generator)"
+				if label != "" {
+					what += " for table " + label
+				}
+				r.fail(rule, what, w.instrPos(c.call), fmt.Sprintf("reached as %s: the directory is %s and the map is %s - not an output directory paired with a generator's unmodified result", c.path, dir, mp))
 				continue
 			}
-		}
-		// err guard
-		var errV ssa.Value
-		for _, ref := range *gcall.Referrers() {
-			if e, ok := ref.(*ssa.Extract); ok && e.Index == 1 {
-				errV = e
+			if got[dir.S] == nil {
+				got[dir.S] = map[string]bool{}
 			}
-		}
-		if errV == nil || !guardedByNil(wc.Block(), errV, false) {
-			r.fail(rule, key, w.instrPos(wc), "WriteCodeToFile is not dominated by the err == nil edge of the generator call")
-			continue
-		}
-		// path operand and gen func come from the same table element
-		pth := stripIdentity(cc.Args[0])
-		same := false
-		if pf, ok := pth.(*ssa.Field); ok {
-			if gf, ok := gcall.Call.Value.(*ssa.Field); ok && pf.X == gf.X {
-				_, pn, _, _ := fieldOf(pf)
-				_, gn, _, _ := fieldOf(gf)
-				same = pn == "path" && gn == "gen"
-			}
-		}
-		if pf, ok := pth.(*ssa.UnOp); ok {
-			if fa, ok := pf.X.(*ssa.FieldAddr); ok {
-				if gl, ok := gcall.Call.Value.(*ssa.UnOp); ok {
-					if ga, ok := gl.X.(*ssa.FieldAddr); ok && ga.X == fa.X {
-						_, pn, _, _ := fieldOf(fa)
-						_, gn, _, _ := fieldOf(ga)
-						same = pn == "path" && gn == "gen"
+			got[dir.S][mp.S] = true
+			// the generator's error is tested before its files are written
+			guarded := false
+			fr := c
+			blk := c.call.Block()
+			for i := len(c.frames); i >= 0 && !guarded; i-- {
+				fn, env := fr.fn, fr.env
+				if i < len(c.frames) {
+					fn, env, blk = c.frames[i].call.Parent(), c.frames[i].env, c.frames[i].call.Block()
+				}
+				le := env
+				if label != "" {
+					le = d.withLit(env, d.lastTable, d.lastTable.lits[d.labelIndex(label)])
+				}
+				for _, bb := range fn.Blocks {
+					cond := branchCond(bb)
+					if cond == nil {
+						continue
+					}
+					x, nn, ok := nilTest(cond)
+					if !ok || !isErrorType(x.Type()) {
+						continue
+					}
+					if sv := d.eval(x, le, 0); sv.Kind == "generr" && sv.S == mp.S && edgeDominates(bb, 1-nn, blk) {
+						guarded = true
 					}
 				}
 			}
+			key := fmt.Sprintf("files of %s are written only after its error was nil", mp.S)
+			if guarded {
+				r.pass(rule, key, w.instrPos(c.call), "")
+			} else {
+				r.fail(rule, key, w.instrPos(c.call), "WriteCodeToFile is not dominated by the err == nil edge of the generator call whose files it writes")
+			}
 		}
-		if !same {
-			r.fail(rule, key, w.instrPos(wc), "the directory operand is not the `path` of the same table entry whose `gen` produced the map")
-			continue
+	}
+	if nWrites == 0 {
+		r.fail(rule, "WriteCodeToFile(path, gen())", w.pos(compile.Pos()), "cmd.Compile (with its helpers) never calls WriteCodeToFile")
+	}
+	for _, k := range sortedKeys(genPairing) {
+		key := fmt.Sprintf("outputs[%q] receives the files of %s", k, genPairing[k])
+		ctors := sortedBoolKeys(got[k])
+		switch {
+		case len(ctors) == 1 && ctors[0] == genPairing[k]:
+			r.pass(rule, key, w.pos(compile.Pos()), "")
+		case len(ctors) == 0:
+			r.fail(rule, key, w.pos(compile.Pos()), fmt.Sprintf("nothing is ever written below outputs[%q]: the --%s target is silently ignored", k, flagKeyNames[k]))
+		default:
+			r.fail(rule, key, w.pos(compile.Pos()), fmt.Sprintf("outputs[%q] receives the files of %v", k, ctors))
 		}
-		r.pass(rule, key, w.instrPos(wc), "")
+	}
+	for k := range got {
+		if _, ok := genPairing[k]; !ok {
+			r.fail(rule, fmt.Sprintf("outputs[%q] is a documented target", k), w.pos(compile.Pos()), "files are written below an outputs key no flag fills")
+		}
 	}
 	// (c) who-may-write: under Compile only WriteCodeToFile mutates the file system
 	reach := w.compileReach()
@@ -901,7 +838,34 @@ func c16Compile(w *World, r *Report) {
 	}
 	r.floor("C16/compile-writes-only-in-writer", 60)
 	c16Writer(w, r, wctf)
-	// (d) RunE: outputs keys <- flag variables; init: flag names -> variables
+	// (d) the outputs map handed to Compile: key k <- the variable the flag for k is bound to; input <- the -f flag's variable
+	flagOf := map[string]string{} // global variable -> flag name
+	for _, fn := range w.srcFuncs {
+		if fn.Pkg != w.Cmd || !strings.HasPrefix(fn.Name(), "init") {
+			continue
+		}
+		forEachInstr(fn, func(b *ssa.BasicBlock, ins ssa.Instruction) {
+			c, ok := ins.(ssa.CallInstruction)
+			if !ok || !(calleeIs(c, "(*github.com/spf13/pflag.FlagSet).StringVarP") || calleeIs(c, "(*github.com/spf13/pflag.FlagSet).StringVar")) {
+				return
+			}
+			args := c.Common().Args
+			if len(args) < 3 {
+				return
+			}
+			// only flags of the command whose RunE calls Compile: the receiver is compileCmd.Flags()
+			name, _ := constString(args[2])
+			if g, ok := args[1].(*ssa.Global); ok && name != "" {
+				if fc, ok := args[0].(*ssa.Call); ok && len(fc.Call.Args) > 0 {
+					if ld, ok := fc.Call.Args[0].(*ssa.UnOp); ok {
+						if cg, ok := ld.X.(*ssa.Global); ok {
+							flagOf[cg.Name()+"|"+g.Name()] = name
+						}
+					}
+				}
+			}
+		})
+	}
 	var runE *ssa.Function
 	for _, fn := range w.findCmdFuncCalling(modPath + "/cmd.Compile") {
 		runE = fn
@@ -909,74 +873,66 @@ func c16Compile(w *World, r *Report) {
 	if runE == nil {
 		r.fatal("anchor unresolved: compile RunE closure calling Compile")
 	} else {
-		got := map[string]string{}
-		forEachInstr(runE, func(b *ssa.BasicBlock, ins ssa.Instruction) {
-			mu, ok := ins.(*ssa.MapUpdate)
-			if !ok {
-				return
+		// which command owns this RunE: the global whose literal stores the closure
+		owner := ""
+		for _, fn := range w.srcFuncs {
+			if fn.Pkg != w.Cmd || !strings.HasPrefix(fn.Name(), "init") {
+				continue
 			}
-			k, ok := constString(mu.Key)
-			if !ok {
-				return
-			}
-			if u, ok := mu.Value.(*ssa.UnOp); ok && u.Op == token.MUL {
-				if g, ok := u.X.(*ssa.Global); ok {
-					got[k] = g.Name()
+			forEachInstr(fn, func(b *ssa.BasicBlock, ins ssa.Instruction) {
+				st, ok := ins.(*ssa.Store)
+				if !ok {
 					return
 				}
-			}
-			got[k] = "?"
-		})
-		for _, k := range sortedKeys(flagPairing) {
-			if got[k] == flagPairing[k] {
-				r.pass(rule, fmt.Sprintf("outputs[%q] = %s", k, flagPairing[k]), w.pos(runE.Pos()), "")
-			} else {
-				r.fail(rule, fmt.Sprintf("outputs[%q] = %s", k, flagPairing[k]), w.pos(runE.Pos()), fmt.Sprintf("outputs[%q] is filled from %q", k, got[k]))
-			}
+				holds := false
+				switch v := stripIdentity(st.Val).(type) {
+				case *ssa.Function:
+					holds = v == runE
+				case *ssa.MakeClosure:
+					holds = v.Fn == ssa.Value(runE)
+				}
+				if !holds {
+					return
+				}
+				if fa, ok := st.Addr.(*ssa.FieldAddr); ok {
+					root := stripIdentity(fa.X)
+					// &cobra.Command{...} allocated, then stored into the global
+					if refs := root.Referrers(); refs != nil {
+						for _, ref := range *refs {
+							if s2, ok := ref.(*ssa.Store); ok && s2.Val == root {
+								if g, ok := s2.Addr.(*ssa.Global); ok {
+									owner = g.Name()
+								}
+							}
+						}
+					}
+				}
+			})
 		}
-		// input file: first arg of Compile is the flag variable `file`
 		cc := callsTo(runE, modPath+"/cmd.Compile")[0].Common()
-		okIn := false
-		if u, ok := stripIdentity(cc.Args[0]).(*ssa.UnOp); ok {
-			if g, ok := u.X.(*ssa.Global); ok && g.Name() == "file" {
-				okIn = true
+		outs := d.eval(cc.Args[1], &drvEnv{}, 0)
+		for _, k := range sortedKeys(flagKeyNames) {
+			key := fmt.Sprintf("outputs[%q] is the value of --%s", k, flagKeyNames[k])
+			v, ok := outs.Map[k]
+			switch {
+			case outs.Kind != "maplit":
+				r.fail(rule, key, w.pos(runE.Pos()), "the outputs argument of Compile is "+outs.String()+", not a map built from the flag variables")
+			case !ok || v.Kind != "flagvar":
+				r.fail(rule, key, w.pos(runE.Pos()), fmt.Sprintf("outputs[%q] is filled from %s", k, v))
+			case flagOf[owner+"|"+v.S] != flagKeyNames[k]:
+				r.fail(rule, key, w.pos(runE.Pos()), fmt.Sprintf("outputs[%q] is filled from the variable of flag --%s", k, flagOf[owner+"|"+v.S]))
+			default:
+				r.pass(rule, key, w.pos(runE.Pos()), "through variable "+v.S)
 			}
 		}
-		if okIn {
+		in := d.eval(cc.Args[0], &drvEnv{}, 0)
+		if in.Kind == "flagvar" && flagOf[owner+"|"+in.S] == "file" {
 			r.pass(rule, "Compile(file, outputs)", w.pos(runE.Pos()), "")
 		} else {
-			r.fail(rule, "Compile(file, outputs)", w.pos(runE.Pos()), "input path passed to Compile is not the -f flag variable unmodified")
+			r.fail(rule, "Compile(file, outputs)", w.pos(runE.Pos()), "input path passed to Compile is not the -f flag's variable unmodified: "+in.String())
 		}
 	}
-	// flag registration
-	for _, fn := range w.srcFuncs {
-		if fn.Pkg != w.Cmd || !strings.HasPrefix(fn.Name(), "init") {
-			continue
-		}
-		forEachInstr(fn, func(b *ssa.BasicBlock, ins ssa.Instruction) {
-			c, ok := ins.(ssa.CallInstruction)
-			if !ok || !calleeIs(c, "(*github.com/spf13/pflag.FlagSet).StringVarP") {
-				return
-			}
-			args := c.Common().Args
-			name, _ := constString(args[2])
-			g, _ := args[1].(*ssa.Global)
-			want, tracked := flagNames[name]
-			if !tracked {
-				return
-			}
-			if g != nil && g.Name() == want {
-				r.pass(rule, fmt.Sprintf("flag --%s binds %s", name, want), w.instrPos(ins), "")
-			} else {
-				gn := "?"
-				if g != nil {
-					gn = g.Name()
-				}
-				r.fail(rule, fmt.Sprintf("flag --%s binds %s", name, want), w.instrPos(ins), "flag is bound to variable "+gn)
-			}
-		})
-	}
-	r.floor(rule, 20)
+	r.floor(rule, 15)
 }
 
 // writerSet: WriteCodeToFile plus the repo helpers that are called only from inside the set (the writer's private helpers).
@@ -1354,7 +1310,6 @@ func isLoadOfOsArgs(v ssa.Value) bool {
 	g, ok := u.X.(*ssa.Global)
 	return ok && g.Name() == "Args" && g.Pkg != nil && g.Pkg.Pkg.Path() == "os"
 }
-
 
 // addressTaken: the function is used as a value (not just called) somewhere in the repo.
 func (w *World) addressTaken(fn *ssa.Function) bool {
